@@ -631,4 +631,351 @@ inductive ARB (a : Acc) : Nat → Prop
   | step (v w : Nat) : w ∈ a.liveEntries (v : Int) → ARB a w → ARB a v
 
 
+/-! ### the loop of the threshold-1 phase -/
+
+/-- `v` reaches, inside `s`, a vertex with two or more successors in `s` (the `ReachesBranching`
+of the property file). -/
+inductive RB (k : Nat) (s : Mask) : Nat → Prop
+  | here (v : Nat) : s.getD v false = true → 2 ≤ succCount k s v → RB k s v
+  | step (v w : Nat) : s.getD v false = true → w ∈ obtainLatters k v → s.getD w false = true →
+      RB k s w → RB k s v
+
+/-- the `Closed1` of the property file. -/
+def ClosedOne (k : Nat) (s : Mask) : Prop :=
+  ∀ v, s.getD v false = true → 1 ≤ succCount k s v ∧ RB k s v
+
+theorem ClosedOne.trimClosed {k : Nat} {s : Mask} (h : ClosedOne k s) : TrimClosed k 1 s :=
+  fun v hv => (h v hv).1
+
+theorem filter_length_mono_mem {α} (p q : α → Bool) :
+    ∀ l : List α, (∀ x ∈ l, p x = true → q x = true) → (l.filter p).length ≤ (l.filter q).length := by
+  intro l
+  induction l with
+  | nil => simp
+  | cons x xs ih =>
+    intro h
+    have := ih (fun y hy => h y (by simp [hy]))
+    simp only [List.filter_cons]
+    cases hp : p x
+    · cases hq : q x <;> simp <;> omega
+    · simp [h x (by simp) hp]; omega
+
+theorem succCount_eq (k : Nat) (s : Mask) (v : Nat) :
+    succCount k s v = ((List.range 4).filter fun j => s.getD ((v * 4 + j) % 4 ^ k) false).length := by
+  unfold succCount obtainLatters
+  rw [List.filter_map, List.length_map]
+  rfl
+
+theorem deg_eq (a : Acc) (v : Nat) :
+    a.deg v = ((List.range 4).filter fun j => decide (a.ent (v : Int) j ≥ 0)).length := rfl
+
+/-- the useful vertices of a round. -/
+def usefulOf (a : Acc) : Array Bool :=
+  usefulLoop a (obtainVertices a) (a.size + 1) ((Array.range a.size).map fun v => decide (a.deg v > 1))
+
+theorem thresholdOneLoop_succ (k f : Nat) (a : Acc) :
+    thresholdOneLoop k (f + 1) a =
+      if (obtainVertices a).isEmpty then .error .valueError else
+      if ((obtainVertices a).filter fun v => !(usefulOf a).getD v false).isEmpty then
+        .ok (obtainVertices a, a)
+      else thresholdOneLoop k f
+        (((obtainVertices a).filter fun v => !(usefulOf a).getD v false).foldl (removeVertex k) a) := rfl
+
+theorem u0_getD (a : Acc) (v : Nat) :
+    ((Array.range a.size).map fun v => decide (a.deg v > 1)).getD v false = true ↔
+      v < a.size ∧ 1 < a.deg v := by
+  by_cases hv : v < a.size
+  · rw [getD_range_map _ _ _ _ hv]; simp [hv]
+  · simp [Array.getD, hv]
+
+theorem mem_vs {k : Nat} {a : Acc} (h : WFdB k a) (v : Nat) :
+    v ∈ obtainVertices a ↔ v < 4 ^ k ∧ 0 < a.deg v := by
+  rw [h.mem_obtainVertices]
+  unfold Acc.deg
+  rw [List.length_pos_iff]
+
+theorem usefulOf_spec (a : Acc) :
+    Mask.Le ((Array.range a.size).map fun v => decide (a.deg v > 1)) (usefulOf a) ∧
+    (usefulOf a).size = a.size ∧
+    usefulStep a (obtainVertices a) (usefulOf a) = usefulOf a ∧
+    ∀ v, (usefulOf a).getD v false = true → ARB a v := by
+  obtain ⟨h1, h2, h3, h4⟩ := usefulLoop_spec a (obtainVertices a) (a.size + 1)
+    ((Array.range a.size).map fun v => decide (a.deg v > 1)) (by simp; omega)
+  refine ⟨h1, by rw [usefulOf, h2]; simp, h3, ?_⟩
+  apply h4 (ARB a)
+  · intro v hv
+    exact ARB.here v ((u0_getD a v).1 hv).2
+  · intro v w _ hw hp
+    exact ARB.step v w hw hp
+
+/-- a vertex of a closed reference set is never useless. -/
+theorem usefulOf_closed {k : Nat} {C M : Mask} {a : Acc} (hC : ClosedOne k C) (hCs : C.size = 4 ^ k)
+    (h : CInv k C M a []) {v : Nat} (hv : C.getD v false = true) :
+    (usefulOf a).getD v false = true := by
+  obtain ⟨s1, s2, s3, _⟩ := usefulOf_spec a
+  have hlt : ∀ x, C.getD x false = true → x < 4 ^ k := fun x hx => by
+    rw [← hCs]; exact Mask.lt_size_of_getD hx
+  induction (hC v hv).2 with
+  | here v hv h2 =>
+    apply s1
+    rw [u0_getD, h.wf.1]
+    refine ⟨hlt v hv, ?_⟩
+    rw [succCount_eq] at h2
+    rw [deg_eq]
+    refine Nat.lt_of_lt_of_le h2 (filter_length_mono_mem _ _ _ ?_)
+    intro j hj hc
+    simp only [List.mem_range] at hj
+    simpa using h.carcs v j (hlt v hv) hj hv hc
+  | step v w hv hw hcw _ ih =>
+    have hr := ih hcw
+    obtain ⟨j, hj, rfl⟩ := (mem_obtainLatters k v w).1 hw
+    have hvn := hlt v hv
+    have he := h.carcs v j hvn hj hv hcw
+    have he' := (h.wf.ent_nonneg_iff hvn hj).1 he
+    rw [← s3]
+    apply usefulStep_closed (w := (v * 4 + j) % 4 ^ k)
+    · rw [mem_vs h.wf]
+      exact ⟨hvn, h.c_live hC.trimClosed hCs hv⟩
+    · rw [s2, h.wf.1]; exact hvn
+    · rw [Acc.mem_liveEntries]; exact ⟨j, hj, he'⟩
+    · exact hr
+
+theorem loop_spec {k : Nat} {C M : Mask} (hk : 1 ≤ k) (hC : ClosedOne k C) (hCs : C.size = 4 ^ k) :
+    ∀ (f : Nat) (a : Acc), CInv k C M a [] → liveCount k a < f →
+      (∀ vs r, thresholdOneLoop k f a = .ok (vs, r) →
+        CInv k C M r [] ∧ vs = obtainVertices r ∧ vs ≠ [] ∧ ∀ v ∈ vs, ARB r v) ∧
+      (∀ e, thresholdOneLoop k f a = .error e →
+        e = .valueError ∧ ∀ v, ¬ C.getD v false = true) := by
+  intro f
+  induction f with
+  | zero => intro a _ h; omega
+  | succ f ih =>
+    intro a h hf
+    rw [thresholdOneLoop_succ]
+    by_cases hvs : (obtainVertices a).isEmpty = true
+    · rw [if_pos hvs]
+      refine ⟨fun vs r hr => (by cases hr), fun e he => ?_⟩
+      cases he
+      refine ⟨rfl, fun v hv => ?_⟩
+      have hlive := h.c_live hC.trimClosed hCs hv
+      have hvn : v < 4 ^ k := by rw [← hCs]; exact Mask.lt_size_of_getD hv
+      have : v ∈ obtainVertices a := (mem_vs h.wf v).2 ⟨hvn, hlive⟩
+      rw [List.isEmpty_iff] at hvs
+      rw [hvs] at this; cases this
+    · rw [if_neg hvs]
+      by_cases hul : ((obtainVertices a).filter fun v => !(usefulOf a).getD v false).isEmpty = true
+      · rw [if_pos hul]
+        refine ⟨fun vs r hr => ?_, fun e he => by cases he⟩
+        cases hr
+        refine ⟨h, rfl, fun hnil => hvs (by rw [hnil]; rfl), fun v hv => ?_⟩
+        apply (usefulOf_spec a).2.2.2
+        rw [List.isEmpty_iff, List.filter_eq_nil_iff] at hul
+        have := hul v hv
+        simpa using this
+      · rw [if_neg hul]
+        cases hus : (obtainVertices a).filter fun v => !(usefulOf a).getD v false with
+        | nil => rw [hus] at hul; exact absurd rfl hul
+        | cons u us =>
+          have hall : ∀ x ∈ u :: us, x < 4 ^ k ∧ 0 < a.deg x ∧ ¬ C.getD x false = true := by
+            intro x hx
+            rw [← hus, List.mem_filter] at hx
+            obtain ⟨hx1, hx2⟩ := hx
+            have := (mem_vs h.wf x).1 hx1
+            refine ⟨this.1, this.2, fun hc => ?_⟩
+            rw [usefulOf_closed hC hCs h hc] at hx2
+            cases hx2
+          have hall' : ∀ x ∈ u :: us, x < 4 ^ k ∧ ¬ C.getD x false = true :=
+            fun x hx => ⟨(hall x hx).1, (hall x hx).2.2⟩
+          obtain ⟨r1, _⟩ := removeAll_inv hk hC.trimClosed hCs (u :: us) a h hall'
+          have r2 := removeAll_lt hk hC.trimClosed hCs u us a h hall' (hall u (by simp)).2.1
+          exact ih _ r1 (by omega)
+
+
+/-! ### the first accessor, the last accessor -/
+
+theorem induced_deg_pos {k : Nat} {s : Mask} {v : Nat} (hv : v < 4 ^ k)
+    (h : 0 < (inducedAccessor k s).deg v) : s.getD v false = true := by
+  obtain ⟨j, hj, he⟩ := (deg_pos_iff _ v).1 h
+  rw [inducedAccessor_ent_trim k s v j hv hj] at he
+  split at he
+  · rename_i hc; exact hc.1
+  · omega
+
+theorem induced_deg_pos_of_closed {k : Nat} {s : Mask} (hs : TrimClosed k 1 s) {v : Nat}
+    (hv : v < 4 ^ k) (h : s.getD v false = true) : 0 < (inducedAccessor k s).deg v := by
+  obtain ⟨j, hj, hw⟩ := closed_succ hs h
+  refine (deg_pos_iff _ v).2 ⟨j, hj, ?_⟩
+  rw [inducedAccessor_ent_trim k s v j hv hj, if_pos ⟨h, hw⟩]
+  omega
+
+/-- the invariant holds for the graph induced on a mask closed for threshold 1. -/
+theorem init_inv {k : Nat} {C s : Mask} (hs : TrimClosed k 1 s) (hCs : Mask.Le C s) :
+    CInv k C s (inducedAccessor k s) [] := by
+  refine ⟨inducedAccessor_wfdb k s, ?_, ?_, ?_, ?_, ?_⟩
+  · intro u j hu hj h1 h2
+    have := induced_deg_pos hu h1
+    have := induced_deg_pos (shift_lt k u j) h2
+    rw [inducedAccessor_ent_trim k s u j hu hj, if_pos ⟨by assumption, by assumption⟩]
+    omega
+  · intro p hp; cases hp
+  · intro u j hu hj he hd
+    exfalso
+    rw [inducedAccessor_ent_trim k s u j hu hj] at he
+    split at he
+    · rename_i hc
+      have := induced_deg_pos_of_closed hs (shift_lt k u j) hc.2
+      omega
+    · omega
+  · intro u j hu hj h1 h2
+    rw [inducedAccessor_ent_trim k s u j hu hj, if_pos ⟨hCs _ h1, hCs _ h2⟩]
+    omega
+  · intro u hu h; exact induced_deg_pos hu h
+
+/-- the vertices with arcs, as a mask. -/
+def liveMask (k : Nat) (a : Acc) : Mask := (Array.range (4 ^ k)).map fun v => decide (0 < a.deg v)
+
+theorem liveMask_size (k : Nat) (a : Acc) : (liveMask k a).size = 4 ^ k := by simp [liveMask]
+
+theorem liveMask_getD (k : Nat) (a : Acc) (v : Nat) :
+    (liveMask k a).getD v false = true ↔ v < 4 ^ k ∧ 0 < a.deg v := by
+  unfold liveMask
+  by_cases hv : v < 4 ^ k
+  · rw [getD_range_map _ _ _ _ hv]; simp [hv]
+  · simp [Array.getD, hv]
+
+/-- no arc into a vertex without arcs. -/
+theorem CInv.target_live {k : Nat} {C M : Mask} {a : Acc} (h : CInv k C M a []) {u j : Nat}
+    (hu : u < 4 ^ k) (hj : j < 4) (he : 0 ≤ a.ent (u : Int) j) :
+    0 < a.deg ((u * 4 + j) % 4 ^ k) := by
+  apply Classical.byContradiction
+  intro hn
+  have := h.pend u j hu hj he (by omega)
+  cases this
+
+theorem final_induced {k : Nat} {C M : Mask} {a : Acc} (h : CInv k C M a []) :
+    a = inducedAccessor k (liveMask k a) := by
+  apply wfdb_ext h.wf (inducedAccessor_wfdb k _)
+  intro v j hv hj
+  rw [inducedAccessor_ent_trim k _ v j hv hj]
+  by_cases he : 0 ≤ a.ent (v : Int) j
+  · rw [if_pos]
+    · exact (h.wf.ent_nonneg_iff hv hj).1 he
+    · exact ⟨(liveMask_getD k a v).2 ⟨hv, (deg_pos_iff a v).2 ⟨j, hj, he⟩⟩,
+        (liveMask_getD k a _).2 ⟨shift_lt k v j, h.target_live hv hj he⟩⟩
+  · rw [if_neg]
+    · exact h.wf.ent_neg hv hj he
+    · rintro ⟨h1, h2⟩
+      exact he (h.ind v j hv hj ((liveMask_getD k a v).1 h1).2 ((liveMask_getD k a _).1 h2).2)
+
+theorem deg_le_succCount {k : Nat} {C M : Mask} {a : Acc} (h : CInv k C M a []) {v : Nat}
+    (hv : v < 4 ^ k) : a.deg v ≤ succCount k (liveMask k a) v := by
+  rw [succCount_eq, deg_eq]
+  apply filter_length_mono_mem
+  intro j hj he
+  simp only [List.mem_range] at hj
+  simp only [ge_iff_le, decide_eq_true_eq] at he
+  exact (liveMask_getD k a _).2 ⟨shift_lt k v j, h.target_live hv hj he⟩
+
+theorem deg_pos_lt {k : Nat} {a : Acc} (h : WFdB k a) {v : Nat} (hv : 0 < a.deg v) : v < 4 ^ k := by
+  apply Classical.byContradiction
+  intro hn
+  have := Acc.live_oob a v (by rw [h.1]; omega)
+  unfold Acc.deg at hv
+  rw [this] at hv
+  cases hv
+
+theorem arb_rb {k : Nat} {C M : Mask} {a : Acc} (h : CInv k C M a []) {v : Nat} (hv : ARB a v) :
+    RB k (liveMask k a) v := by
+  induction hv with
+  | here v h2 =>
+    have hvn := deg_pos_lt h.wf (by omega : 0 < a.deg v)
+    exact RB.here v ((liveMask_getD k a v).2 ⟨hvn, by omega⟩)
+      (Nat.le_trans h2 (deg_le_succCount h hvn))
+  | step v w hw _ ih =>
+    obtain ⟨j, hj, he⟩ := (Acc.mem_liveEntries a _ w).1 hw
+    have hpos : 0 < a.deg v := (deg_pos_iff a v).2 ⟨j, hj, by omega⟩
+    have hvn := deg_pos_lt h.wf hpos
+    have hw' : ((v * 4 + j) % 4 ^ k : Nat) = w := by
+      have := (h.wf.ent_nonneg_iff hvn hj).1 (by omega)
+      omega
+    have hlw := h.target_live hvn hj (by omega)
+    rw [hw'] at hlw
+    refine RB.step v w ((liveMask_getD k a v).2 ⟨hvn, hpos⟩) ?_
+      ((liveMask_getD k a w).2 ⟨by rw [← hw']; exact shift_lt k v j, hlw⟩) ih
+    rw [← hw']; exact shift_mem k v j hj
+
+theorem final_closed {k : Nat} {C M : Mask} {a : Acc} (h : CInv k C M a [])
+    (harb : ∀ v ∈ obtainVertices a, ARB a v) : ClosedOne k (liveMask k a) := by
+  intro v hv
+  obtain ⟨hvn, hpos⟩ := (liveMask_getD k a v).1 hv
+  refine ⟨Nat.le_trans hpos (deg_le_succCount h hvn), arb_rb h (harb v ?_)⟩
+  exact (mem_vs h.wf v).2 ⟨hvn, hpos⟩
+
+theorem final_indices {k : Nat} {a : Acc} (h : WFdB k a) :
+    obtainVertices a = (liveMask k a).indices := by
+  rw [h.obtainVertices_eq]
+  unfold Mask.indices
+  rw [liveMask_size]
+  apply List.filter_congr
+  intro v hv
+  rw [List.mem_range] at hv
+  rw [Bool.eq_iff_iff, liveMask_getD]
+  simp only [decide_eq_true_eq]
+  unfold Acc.deg
+  rw [List.length_pos_iff]
+  exact ⟨fun h => ⟨hv, h⟩, fun h => h.2⟩
+
+theorem closedOne_empty (k : Nat) : ClosedOne k (Array.replicate (4 ^ k) false) := by
+  intro v hv
+  exfalso
+  by_cases h : v < 4 ^ k
+  · simp [Array.getD, h] at hv
+  · simp [Array.getD, h] at hv
+
+/-- the threshold-1 phase on the output of the trimming loop. -/
+theorem thresholdOne_main {k : Nat} {s0 : Mask} (hk : 1 ≤ k) (hcl : TrimClosed k 1 s0) :
+    (∀ vs a, thresholdOneLoop k (4 ^ k + 1) (inducedAccessor k s0) = .ok (vs, a) →
+      ∃ s : Mask, s.size = 4 ^ k ∧ Mask.Le s s0 ∧ ClosedOne k s ∧
+        (∀ c : Mask, c.size = 4 ^ k → Mask.Le c s0 → ClosedOne k c → Mask.Le c s) ∧
+        a = inducedAccessor k s ∧ vs = s.indices ∧ vs = obtainVertices a ∧ vs ≠ []) ∧
+    (∀ e, thresholdOneLoop k (4 ^ k + 1) (inducedAccessor k s0) = .error e →
+      e = .valueError ∧
+      ∀ c : Mask, c.size = 4 ^ k → Mask.Le c s0 → ClosedOne k c → ∀ v, ¬ c.getD v false = true) := by
+  have hfuel : liveCount k (inducedAccessor k s0) < 4 ^ k + 1 := by
+    have := liveCount_le k (inducedAccessor k s0); omega
+  have hempty : Mask.Le (Array.replicate (4 ^ k) false) s0 := by
+    intro v hv
+    exfalso
+    by_cases h : v < 4 ^ k
+    · simp [Array.getD, h] at hv
+    · simp [Array.getD, h] at hv
+  refine ⟨fun vs a hr => ?_, fun e he => ?_⟩
+  · obtain ⟨h1, h2, h3, h4⟩ := (loop_spec (M := s0) hk (closedOne_empty k) (by simp) _ _
+      (init_inv hcl hempty) hfuel).1 vs a hr
+    refine ⟨liveMask k a, liveMask_size k a, ?_, final_closed h1 (h2 ▸ h4), ?_, final_induced h1,
+      ?_, h2, h3⟩
+    · intro v hv
+      obtain ⟨hvn, hpos⟩ := (liveMask_getD k a v).1 hv
+      exact h1.sub v hvn hpos
+    · intro c hcs hc0 hcc v hv
+      obtain ⟨g1, _⟩ := (loop_spec (M := s0) hk hcc hcs _ _ (init_inv hcl hc0) hfuel).1 vs a hr
+      exact (liveMask_getD k a v).2
+        ⟨by rw [← hcs]; exact Mask.lt_size_of_getD hv, g1.c_live hcc.trimClosed hcs hv⟩
+    · rw [h2]; exact final_indices h1.wf
+  · have e1 := ((loop_spec (M := s0) hk (closedOne_empty k) (by simp) _ _
+      (init_inv hcl hempty) hfuel).2 e he).1
+    refine ⟨e1, fun c hcs hc0 hcc => ?_⟩
+    exact ((loop_spec (M := s0) hk hcc hcs _ _ (init_inv hcl hc0) hfuel).2 e he).2
+
+theorem connectCodingGraph_one (k : Nat) (m : Mask) :
+    connectCodingGraph k m 1 =
+      match trimLoop k 1 (4 ^ k + 1) m with
+      | .error e => .error e
+      | .ok s => thresholdOneLoop k (4 ^ k + 1) (inducedAccessor k s) := by
+  unfold connectCodingGraph
+  cases trimLoop k 1 (4 ^ k + 1) m with
+  | error e => rfl
+  | ok s => simp [bind, Except.bind]
+
+
 end Dsw.TrimOne
